@@ -471,7 +471,9 @@ func execute(c Case) vkit.Result {
 			sum := d.Summary()
 			lengthClass := d.OOM() || strings.Contains(sum, "slice bounds out of range [:-") || strings.Contains(sum, "allocation size out of range") ||
 				(strings.Contains(sum, "makeslice") && site != "message.ID.Ssid")
-			if lengthClass { // a length prefix / size claim of the payload was trusted: one root cause, many surface sites
+			// the listed finding is about size claims that lie; a payload whose lengths are all truthful and that still
+			// aborts the broker (an extreme VALUE such as a limit or a time) is something else
+			if lengthClass && !truthfulLengths(c) { // a length prefix / size claim of the payload was trusted: one root cause, many surface sites
 				r.Finding = "C09-cluster-length-prefix"
 			} else if site != "" {
 				r.Finding = "C09-cluster-abort@" + site
@@ -516,11 +518,71 @@ func execute(c Case) vkit.Result {
 }
 
 func truthfulLengths(c Case) bool {
-	if c.Kind == "unicast" {
-		_, ok := unsnappy(c.Data)
-		return ok && lengthsOK(c.Data, true)
+	switch c.Kind {
+	case "unicast":
+		raw, ok := unsnappy(c.Data)
+		if !ok || !lengthsOK(c.Data, true) {
+			return false
+		}
+		// survey traffic carried by the frame: the handler's own payload format must be truthful as well
+		r := &rd{b: raw, ok: true}
+		n := r.uvarint()
+		for i := uint64(0); r.ok && i < n; i++ {
+			id := r.bytes(r.uvarint())
+			ch := r.bytes(r.uvarint())
+			payload := r.bytes(r.uvarint())
+			r.uvarint()
+			if r.ok && len(id) >= 20 && binary.BigEndian.Uint32(id[16:20]) == 0 {
+				switch {
+				case strings.HasPrefix(string(ch), "ssdstore"):
+					if !truthfulQuery(payload, true) {
+						return false
+					}
+				case strings.HasPrefix(string(ch), "presence"):
+					if !truthfulQuery(payload, false) {
+						return false
+					}
+				}
+			}
+		}
+		return r.ok
+	case "survey-ssd":
+		return truthfulQuery(c.Data, true)
+	case "survey-presence":
+		return truthfulQuery(c.Data, false)
+	case "message":
+		raw, ok := unsnappy(c.Data)
+		if !ok {
+			return false
+		}
+		r := &rd{b: raw, ok: true}
+		r.bytes(r.uvarint())
+		r.bytes(r.uvarint())
+		r.bytes(r.uvarint())
+		r.uvarint()
+		return r.ok
 	}
 	return lengthsOK(c.Data, false)
+}
+
+// truthfulQuery: a survey request (lookupQuery{Ssid, From, Until, StartFromID, Limit} or a bare ssid) whose element
+// count and byte-string length are within the data. The VALUES it carries (limit, times, ssid words) may be anything.
+func truthfulQuery(data []byte, lookup bool) bool {
+	r := &rd{b: data, ok: true}
+	n := r.uvarint()
+	if !r.ok || n > uint64(len(data)) {
+		return false
+	}
+	for i := uint64(0); i < n; i++ {
+		r.uvarint()
+	}
+	if lookup {
+		r.uvarint()
+		r.uvarint()
+		r.bytes(r.uvarint())
+		r.uvarint()
+	}
+	return r.ok
 }
 
 // lengthsOK: the snappy header claims at most 1 MiB and every length prefix of the payload is within the data.
